@@ -318,7 +318,10 @@ _MACHINE = (' MACHINE WIRING (every run): translate/machine_wiring.py regenerate
             'on_enter_<dest>, after_state_change with its guard -- expands each Callback method into its hooks and waits, and proves for ALL model states that the segments of '
             'Life/Model.v (enter_start/run/reset, close_trigger, do_step at every pc inside a trigger, run_finish, the run task\'s last steps) equal the interpretation of the '
             'derived program: same hooks in the same order, each seeing the same state, the waits before / after the state change as in the code, refusal exactly for the '
-            'pairs without a CONFIG row (*_tie_machine_*). Not modelled there: a hook or wait that raises or is cancelled inside a trigger.')
+            'pairs without a CONFIG row (*_tie_machine_*). COMPOSED with the regenerated Imp methods (Life/MachineImpTie.v): which trigger, with which event data, each Imp method fires '
+            'under the lock, and enter_start/run/reset/close of the model EQUAL the regenerated method run from the moment the lock is held, for all states (close: pubsub.close, '
+            'guarded wait, trigger close, pubsub.close, release, Continuous.close); every parked continuation is the rest of the whole program (Life/MachineCont.v). '
+            'Not modelled there: a hook or wait that raises or is cancelled inside a trigger.')
 for _k in ('C01', 'C03', 'C15'):
     TIE2[_k] = (TIE2[_k][0] + _MACHINE, TIE2[_k][1] + '; fsm/machine.py + fsm/callback.py regenerated, per-trigger callback scripts derived and proved equal to the model segments for all states')
 TIE2['C12'] = (_MACHINE, '; fsm/machine.py + fsm/callback.py regenerated, per-trigger callback scripts derived and proved equal to the model segments for all states')
